@@ -128,6 +128,7 @@ func init() {
 			{Rule: "RAPID.nil", Min: 2, Why: "nil sources + method calls"},
 			{Rule: "RAPID.utf8", Min: 3, Why: "ValueOfString sites"},
 			{Rule: "RAPID.any", Min: 1, Why: "genAny"},
+			{Rule: "RAPID.dispatch", Min: 4, Why: "four well-known types"},
 			{Rule: "RAPID.url", Min: 3, Why: "WithAnyTypes, WithInterfaceHint, genAny"},
 		},
 		Explanation: "SSA/AST rules on rapidproto; see level text. Runtime-value clauses (UTF-8, round trip, URL resolvability) are not decided.",
@@ -138,8 +139,8 @@ func init() {
 		Technique: "emitted-brace typestate over the template functions (all schemas) + compile-fail witness: the working-tree generator is run as a build step on a schema corpus and its output is type-checked with go/types",
 		DesignRef: "DESIGN.md 3.12, 4 C12",
 		LevelText: "T.brace: every function of the template packages that emits code is abstractly interpreted with state = net braces/parens of the constant text it emits; branch conditions over never-reassigned locals are enumerated as atoms, switch arms are nondeterministic; all paths of a function must agree, loop bodies and root emitters must be balanced - this holds for all schemas, not only the corpus. GEN.*: the generator built from the working tree must answer every corpus schema (kind x shape matrix, 1..5-byte tags, interleaved oneofs, nesting/recursion, cross-package imports, well-known types, name collisions, sparse enums, the schemas embedded in the checked-in files) with sources that type-check (thorough: also GOARCH=386 and the full 12x17 map matrix), an unknown feature with an error, proto2 / unrequested files with no output. The emitted code is only analysed, never run; the codec engines of C01-C04/C06/C14 (SIZE, ENC, DEC, DET, UNK, BND) are applied to everything the working-tree generator emitted, so a template change that breaks a wire-format clause for some kind x shape x tag-width cell of the corpus is reported here as well. Not decided: totality for schemas outside the corpus beyond T.*; M/paths= parameter handling is protogen's.",
-		Engines:      E{tmpl.RunBrace, tmpl.RunNames, tmpl.RunKinds, tmpl.RunFlow, tmpl.RunS2, codec.RunSize, codec.RunEnc, codec.RunDec},
-		RulePrefixes: []string{"T.brace", "T.names", "T.kinds", "T.flow", "T.anchor", "GEN", "G.model", "G.anchor", "SIZE", "ENC", "DEC", "DET", "UNK.default", "BND"},
+		Engines:      E{tmpl.RunBrace, tmpl.RunNames, tmpl.RunKinds, tmpl.RunFlow, tmpl.RunDetPure, tmpl.RunS2, codec.RunSize, codec.RunEnc, codec.RunDec},
+		RulePrefixes: []string{"T.brace", "T.names", "T.kinds", "T.flow", "T.pure", "T.anchor", "GEN", "G.model", "G.anchor", "SIZE", "ENC", "DEC", "DET", "UNK.default", "BND"},
 		Floors: []core.Floor{
 			{Rule: "T.brace", Min: 60, Why: "emitting template functions"},
 			{Rule: "T.names", Min: 19, Why: "16 methods + 3 structure rules"},
@@ -171,8 +172,8 @@ func init() {
 		Technique: "symbolic walk of the size and marshal closures to canonical wire sentences / length polynomials, compared with the protobuf wire spec instantiated from the statically parsed descriptor",
 		DesignRef: "DESIGN.md 3.2, 3.3, 4 C04",
 		LevelText: "For every field of every generated message type (checked-in packages and packages regenerated from the working-tree templates for the schema corpus) the size closure's contribution is, as a symbolic polynomial over tag sizes, Sov(value), len(...) and nested Size(...), equal to the byte length of the wire sentence the spec prescribes, and the marshal closure writes exactly that sentence (tag bytes, payload form, guard) with every write preceded by its own cursor decrement; the buffer is make([]byte, options.Size(x)); so Size = bytes written = reference size for every value and both option settings, the cursor ends at 0 and no write is out of range. The epilogue is append(input.Buf, dAtA...) / input.Buf = dAtA and a nil message returns the input buffer unchanged. Relies on C15 (Sov/EncodeVarint) and A1 (len(options.Marshal(m)) = options.Size(m) for nested m).",
-		Engines:      E{codec.RunSize, codec.RunEnc},
-		RulePrefixes: []string{"SIZE", "ENC.field", "ENC.total", "ENC.frame", "ENC.walk", "ENC.unknown", "G.model", "G.anchor", "GEN.build"},
+		Engines:      E{codec.RunSize, codec.RunEnc, lib.RunVarint},
+		RulePrefixes: []string{"SIZE", "ENC.field", "ENC.total", "ENC.frame", "ENC.walk", "ENC.unknown", "L.sov", "L.soz", "L.encvarint", "L.anchor", "G.model", "G.anchor", "GEN.build"},
 		Floors: []core.Floor{
 			{Rule: "SIZE.count", Min: 400, Why: "fields of S1 (255) + quick corpus"},
 			{Rule: "ENC.field", Min: 400, Why: "fields of S1 + quick corpus"},
@@ -188,7 +189,7 @@ func init() {
 		DesignRef: "DESIGN.md 3.2, 3.6, 4 C02",
 		LevelText: "For every field of every generated type (checked-in and regenerated for the corpus, 1..5-byte tags, every map key/value kind pair in the thorough tier): the bytes written are exactly tag (= protowire.AppendTag) + payload form of the kind (minimal varints: the only varint writers are runtime.EncodeVarint, proved in C15, and the recognised inline packed loop whose reserved size must equal the sum of minimal sizes), packed iff the descriptor says so, under the proto3 omission predicate; blocks appear in the back-filled buffer as unknown, oneofs in reverse declaration order, fields in descending number (= reference 'legacy' order on the wire); map entries always carry key then value; when options.Deterministic all keys are collected, sorted by a comparator that is evaluated on every ordering of two keys and must equal ascending GenericKeyOrder (false<true), and reverse-iterated into the back-filled buffer. Byte equality with the reference as an executed comparison is not decided; it is implied by the above under A3.",
 		Engines:      E{codec.RunEnc, codec.RunOpts, lib.RunVarint},
-		RulePrefixes: []string{"ENC.field", "ENC.order", "ENC.total", "ENC.frame", "ENC.walk", "ENC.unknown", "DET.map", "DET.flow", "OPTS.det", "L.sov", "L.encvarint", "G.model", "G.anchor", "GEN.build"},
+		RulePrefixes: []string{"ENC.field", "ENC.order", "ENC.total", "ENC.frame", "ENC.walk", "ENC.unknown", "DET.map", "DET.flow", "OPTS.det", "L.sov", "L.soz", "L.encvarint", "L.anchor", "G.model", "G.anchor", "GEN.build"},
 		Floors: []core.Floor{
 			{Rule: "ENC.field", Min: 400, Why: "fields of S1 + quick corpus"},
 			{Rule: "ENC.order", Min: 300, Why: "plain fields + oneofs"},
@@ -202,8 +203,8 @@ func init() {
 		Technique: "symbolic walks of the marshal and unmarshal closures to canonical per-field summaries, each compared with the wire spec so that encode and decode forms are mutually inverse per kind",
 		DesignRef: "DESIGN.md 3.2, 3.4, 4 C01",
 		LevelText: "Per field of every generated type: the encoder's payload form and the decoder's read form are the inverse pair the spec prescribes for the kind (varint<->varint accumulated from a zeroed variable of the Go type, zig-zag encode/decode forms, little-endian fixed 4/8, Float bits/frombits so NaN payloads and -0 survive bit-exactly, copy for string/bytes, nested Marshal/Unmarshal through the same options); the decoder has exactly one arm per schema field storing into the Go field mapped to that number, accepting exactly the declared wire type(s); oneof members are emitted unconditionally and decoded as their wrapper; unknown bytes are emitted verbatim and collected verbatim; the encoder's omission guard is the proto3 presence predicate (so a skipped value is the zero value the decoder leaves); marshal's only error return is a nested Marshal error. Not decided: equality of the decoded value for all inputs as an executed comparison (follows from the inverse pairs under A3-A5); UTF-8 validity.",
-		Engines:      E{codec.RunEnc, codec.RunSize, codec.RunDec, codec.RunSkip},
-		RulePrefixes: []string{"ENC", "DEC.form", "DEC.wire", "DEC.cases", "DEC.frame", "DEC.walk", "SIZE.count", "SIZE.walk", "UNK.default", "L.skip", "G.model", "G.anchor", "GEN.build"},
+		Engines:      E{codec.RunEnc, codec.RunSize, codec.RunDec, codec.RunSkip, lib.RunVarint},
+		RulePrefixes: []string{"ENC", "DEC.form", "DEC.wire", "DEC.cases", "DEC.frame", "DEC.walk", "SIZE.count", "SIZE.walk", "UNK.default", "L.skip", "L.sov", "L.soz", "L.encvarint", "L.anchor", "G.model", "G.anchor", "GEN.build"},
 		Floors: []core.Floor{
 			{Rule: "ENC.field", Min: 400, Why: "fields"},
 			{Rule: "DEC.form", Min: 400, Why: "arms"},
@@ -248,9 +249,9 @@ func init() {
 		ID:        "C06",
 		Technique: "guarded-macro typestate on every decode arm (each buffer access / cursor update must be one of the verified guarded forms that keep 0 <= cursor <= len), structural proof of runtime.Skip, option-mapping rule for the recursion budget, nil-store and nil-receiver rules",
 		DesignRef: "DESIGN.md 3.7, 3.8, 4 C06",
-		LevelText: "For every arm of every generated decoder (checked-in and regenerated corpus): every access to the input and every cursor update is one of a closed set of guarded forms whose guards are required verbatim and in order (varint reader with cursor>=l and shift>=64 guards; fixed read behind (cursor+k)>l; payload slice only after len<0, end<0 (overflow) and end>l; Skip block with err, negative/overflow and bound guards; last-element access only right after an append); each form preserves 0 <= cursor <= l, so no index or slice expression can be out of range for any byte string; every loop consumes >= 1 byte per iteration (tag reader first; Skip returns >= 1, decided on Skip itself), so decoding terminates; no panic call or unchecked assertion exists in a decoder; allocations are sized by guarded ints bounded by the remaining input (capacity hints <= payload length). The nesting budget is carried: every decoder returns an error when input.Depth <= 0 before reading anything (DEC.depth) and hands nested decodes a RecursionLimit that the checker evaluates to be non-zero and strictly smaller than input.Depth (OPTS.depth), so nesting deeper than the budget of the outermost call is rejected. Accepted messages are safe to read: no nil message pointer is planted (DEC.mapdefault, open finding F6) and read accessors do not dereference nil (NIL.recv, open finding F7). Not decided: stack depth in bytes, wall-clock or allocator behaviour as quantities.",
-		Engines:      E{codec.RunDec, codec.RunSkip, codec.RunOpts, refl.RunNil},
-		RulePrefixes: []string{"BND", "DEC.walk", "DEC.frame", "DEC.mapdefault", "DEC.depth", "OPTS.depth", "L.skip", "NIL.recv", "NIL.wrap", "G.model", "G.anchor", "GEN.build"},
+		LevelText: "For every arm of every generated decoder (checked-in and regenerated corpus): every access to the input and every cursor update is one of a closed set of guarded forms whose guards are required verbatim and in order (varint reader with cursor>=l and shift>=64 guards; fixed read behind (cursor+k)>l; payload slice only after len<0, end<0 (overflow) and end>l; Skip block with err, negative/overflow and bound guards; last-element access only right after an append); each form preserves 0 <= cursor <= l, so no index or slice expression can be out of range for any byte string; every loop consumes >= 1 byte per iteration (tag reader first; Skip returns >= 1, decided on Skip itself), so decoding terminates; no panic call or unchecked assertion exists in a decoder; allocations are sized by guarded ints bounded by the remaining input (capacity hints <= payload length). The nesting budget is carried: every decoder returns an error when input.Depth <= 0 before reading anything (DEC.depth) and hands nested decodes a RecursionLimit that the checker evaluates to be non-zero and strictly smaller than input.Depth (OPTS.depth), so nesting deeper than the budget of the outermost call is rejected. Accepted messages are safe to read: no nil message pointer is planted (DEC.mapdefault; F6, fixed) and read accessors do not dereference nil (NIL.recv; F7, fixed); and they are safe to marshal: every size contribution equals the encoded length of the same field (SIZE.count, with Sov/Soz/EncodeVarint decided on the bit-length domain), so the back-filling encoder never runs out of buffer. Not decided: stack depth in bytes, wall-clock or allocator behaviour as quantities.",
+		Engines:      E{codec.RunDec, codec.RunSkip, codec.RunOpts, refl.RunNil, codec.RunSize, codec.RunEnc, lib.RunVarint},
+		RulePrefixes: []string{"BND", "DEC.walk", "DEC.frame", "DEC.mapdefault", "DEC.depth", "OPTS.depth", "L.skip", "NIL.recv", "NIL.wrap", "SIZE.count", "SIZE.walk", "ENC.walk", "ENC.frame", "L.sov", "L.soz", "L.encvarint", "L.anchor", "G.model", "G.anchor", "GEN.build"},
 		Floors: []core.Floor{
 			{Rule: "BND.macro", Min: 400, Why: "decode arms"},
 			{Rule: "BND.nopanic", Min: 50, Why: "message types"},
